@@ -113,7 +113,7 @@ func c20Cases(env vk.Env) []vk.Case {
 		cs = append(cs, vk.Case{ID: fmt.Sprintf("pairs/%d", i), Run: func(t *vk.T) { c20Pairs(t, i) }})
 	}
 	for _, fam := range []string{"frost-keygen", "frost-sign", "frost-refresh", "doerner", "cmp-keygen", "cmp-sign", "cmp-presign", "cmp-online", "cmp-refresh"} {
-		reps := env.Pick(1, 4)
+		reps := env.Pick(1, 9)
 		for i := 0; i < reps; i++ {
 			fam, i := fam, i
 			cs = append(cs, vk.Case{ID: fmt.Sprintf("%s/%d", fam, i), Run: func(t *vk.T) { c20Family(t, fam, i, env) }})
